@@ -13,6 +13,7 @@ import MptModel.Lemmas.ReplyId
 import MptModel.Lemmas.ReplyCtx
 import MptModel.Lemmas.ReplyStream
 import MptModel.Lemmas.ReplyRequester
+import MptModel.Lemmas.ReplyRefine
 namespace Mpt.C12
 open Mpt Mpt.Reply Mpt.ReplySpec
 
@@ -79,8 +80,8 @@ example : ((create 2 true).map fun c => (run c [.arm [1, 2], .reply (some [9]) (
       .dreply 0 (some [9]) 0, .arm [3, 4], .dropCtx 0]).log) =
     some [⟨0, [0x81, 2], some [9], false⟩, ⟨0, [0x81, 2], some [9], true⟩, ⟨1, [0x83, 4], none, true⟩] := by decide
 
-/-- later attempts are refused: without an unanswered request on the context a reply returns
-    BadArgument and the transport is not called … -/
+/-- (one call, from any state) later attempts are refused: without an unanswered request on the context a
+    reply returns BadArgument and the transport is not called; safety over whole histories is `at_most_once` -/
 theorem answered_refused (c : Ctx) (msg : Option (List Byte)) (ans : Int) (h : c.cur = none) :
     (reply c msg ans).1 = Err.BadArgument.code ∧ (reply c msg ans).2.log = c.log ∧ (reply c msg ans).2.cur = none := by
   simp [reply, h, csend_none, addCall]
@@ -139,18 +140,91 @@ theorem default_reply_deferred (c : Ctx) (k : Nat) (ans : Int) (r : Req) (hk : c
 example : ((create 2 true).map fun c => (run c [.arm [1, 2], .defer, .arm [3, 4], .dropCtx 0, .dreply 0 none 0]).log) =
     some [⟨1, [0x83, 4], none, true⟩] := by decide
 
-/-- **arming is pure**: it changes the reply data only (and the ghost bookkeeping), never the
-    reference count, the transport, the deferred handles or the log -/
+/-- arming touches the reply data only.  NOTE: in the model this holds by construction (`arm` is a record
+    update of `cur` and the ghost fields); the historical defect (281bbde: arming overwrote the interface
+    pointer) cannot be expressed in M.  For the C code the clause rests on the correspondence run: after
+    every `r arm` the driver checks that the context still answers `convert` with the same interface
+    pointers (`ctx=intact`), and ASan watches the stores.  The theorem documents what M does:
+    nothing but the data changes, an unanswered request is never overwritten (fix affcd55), an id longer
+    than the header is refused. -/
 theorem arm_pure (c : Ctx) (bytes : List Byte) :
     (arm c bytes).2.refs = c.refs ∧ (arm c bytes).2.send = c.send ∧ (arm c bytes).2.ptr = c.ptr ∧
     (arm c bytes).2.owner = c.owner ∧ (arm c bytes).2.handles = c.handles ∧ (arm c bytes).2.log = c.log ∧
     (arm c bytes).2.max = c.max ∧
-    (bytes.length ≤ c.max → (arm c bytes).2.cur = if bytes.length = 0 then none else some ⟨bytes, c.nextTag⟩) ∧
-    (c.max < bytes.length → (arm c bytes).2 = c ∧ (arm c bytes).1 = Err.BadValue.code) := by
+    (c.cur.isSome = true → (arm c bytes).2 = c ∧ (arm c bytes).1 = Err.BadOperation.code) ∧
+    (c.cur = none → bytes.length ≤ c.max →
+      (arm c bytes).2.cur = if bytes.length = 0 then none else some ⟨bytes, c.nextTag⟩) ∧
+    (c.cur = none → c.max < bytes.length → (arm c bytes).2 = c ∧ (arm c bytes).1 = Err.BadValue.code) := by
   unfold arm
-  by_cases h : bytes.length > c.max
-  · simp [h]; omega
-  · simp [h]
+  by_cases h0 : c.cur.isSome = true
+  · have hne : c.cur ≠ none := by intro hn; simp [hn] at h0
+    simp [h0, hne]
+  · by_cases h : bytes.length > c.max
+    · simp [h0, h]; omega
+    · simp [h0, h]
+      first | omega | (intro _ h2; omega) | skip
+example : (arm (arm ⟨2, true, 1, true, true, none, [], 0, [], [], []⟩ [1, 2]).2 [3, 4]).1 = Err.BadOperation.code := by decide
+
+/-- **every request is accounted for** — over every history on a fresh context with a transport
+    pointer, whatever the transport answers: each accepted `arm` with a non-empty id either still stands
+    (on the context or on a deferred handle), or the transport was called for it (reply or default reply,
+    accepted or rejected), or it was discarded after the owner had released the context while deferred
+    handles were outstanding (`reply.send = 0`, the transport is gone).  No request is lost silently while
+    the transport is attached. -/
+theorem every_request_accounted (len : Nat) (c0 : Ctx) (hc : create len true = some c0) (ops : List Op) (t : Nat)
+    (ht : t < (run c0 ops).nextTag) (hne : (run c0 ops).arms.getD t [] ≠ []) :
+    (∃ s r, (run c0 ops).slot s = some r ∧ r.tag = t) ∨ (∃ e ∈ (run c0 ops).log, e.tag = t) ∨
+    (t ∈ (run c0 ops).lost ∧ (run c0 ops).send = false) := by
+  have hinv := inv_run c0 ops (inv_create len true c0 hc)
+  have hp : (run c0 ops).ptr = true := by
+    rw [run_ptr]
+    unfold create at hc; split at hc
+    · cases hc
+    · cases hc; rfl
+  rcases hinv.covered hp t ht hne with h | h | h
+  · exact Or.inl h
+  · exact Or.inr (Or.inl h)
+  · exact Or.inr (Or.inr ⟨h, hinv.lostDet (List.ne_nil_of_mem h)⟩)
+
+/-- … in particular: while the transport is still attached at the end of the history and nothing stands
+    on the context or a handle any more, the transport has been called for every request -/
+theorem released_all_answered (len : Nat) (c0 : Ctx) (hc : create len true = some c0) (ops : List Op)
+    (hs : (run c0 ops).send = true) (hfree : ∀ s, (run c0 ops).slot s = none) (t : Nat)
+    (ht : t < (run c0 ops).nextTag) (hne : (run c0 ops).arms.getD t [] ≠ []) :
+    ∃ e ∈ (run c0 ops).log, e.tag = t := by
+  rcases every_request_accounted len c0 hc ops t ht hne with ⟨s, r, h, _⟩ | h | ⟨_, h⟩
+  · rw [hfree s] at h; cases h
+  · exact h
+  · rw [hs] at h; cases h
+example : ((create 2 true).map fun c => (run c [.arm [1, 2], .arm [3, 4], .dropCtx 0]).log) =
+    some [⟨0, [0x81, 2], none, true⟩] := by decide
+example : ((create 2 true).map fun c => ((run c [.arm [1, 2], .defer, .dropCtx 0, .dreply 0 (some [9]) 0]).lost,
+      (run c [.arm [1, 2], .defer, .dropCtx 0, .dreply 0 (some [9]) 0]).send)) = some ([0], false) := by decide
+
+/-- deferred handle: a rejected reply (with a message) keeps the handle and the request, so that the
+    reply can be retried with the same marked id … -/
+theorem dreply_retry (c : Ctx) (k : Nat) (m : List Byte) (ans : Int) (r : Req) (hk : c.handles.getD k none = some r)
+    (hs : c.send = true) (hp : c.ptr = true) (ha : ans < 0) :
+    (dreply c k (some m) ans).1 = ans ∧
+    (dreply c k (some m) ans).2.handles = c.handles.set k (some ⟨unmark (mark r.val), r.tag⟩) ∧
+    (dreply c k (some m) ans).2.log = c.log ++ [⟨r.tag, mark r.val, some m, false⟩] ∧
+    (dreply c k (some m) ans).2.refs = c.refs := by
+  have n1 : ¬ 0 ≤ ans := by omega
+  unfold dreply
+  rw [hk]
+  simp [contextSend, hs, hp, n1, ha, addCall, addLost]
+
+/-- … and an accepted reply through the handle consumes handle and request -/
+theorem dreply_accepted_releases (c : Ctx) (k : Nat) (msg : Option (List Byte)) (ans : Int) (r : Req)
+    (hk : c.handles.getD k none = some r) (hs : c.send = true) (hp : c.ptr = true) (ha : 0 ≤ ans) :
+    (dreply c k msg ans).1 = ans ∧ (dreply c k msg ans).2.handles = c.handles.set k none ∧
+    (dreply c k msg ans).2.log = c.log ++ [⟨r.tag, mark r.val, msg, true⟩] := by
+  have n1 : ¬ ans < 0 := by omega
+  unfold dreply
+  rw [hk]
+  simp [contextSend, hs, hp, ha, n1, addCall, addLost]
+example : ((create 2 true).map fun c => (run c [.arm [1, 2], .defer, .dreply 0 (some [7]) (-4), .dreply 0 (some [8]) 0,
+      .dreply 0 (some [9]) 0]).log) = some [⟨0, [0x81, 2], some [7], false⟩, ⟨0, [0x81, 2], some [8], true⟩] := by decide
 
 /- ---------------------------------------------------------------- stream-input variant -/
 
@@ -204,13 +278,16 @@ theorem request_id_fresh (arr : Option (List Requester.Slot)) (idlen tag : Nat) 
 example : Requester.reserve (some [⟨1, some 7⟩, ⟨2, none⟩, ⟨3, some 9⟩]) 2 5 = some ([⟨1, some 7⟩, ⟨3, some 9⟩, ⟨4, some 5⟩], 4) := by
   decide
 
-/-- **at most once, requester side**: when `io::stream` delivers a reply to the handler waiting for
-    its id, that handler is the one registered under exactly this id, and afterwards nobody waits
-    for the id any more (a second reply with the same id reaches no reply handler) -/
+/-- **to the right requester, at most once (requester side)**: when `io::stream` hands message `m` to a reply
+    handler `t`, then the id header of `m` decodes (mark removed) to an id `rid`, `t` is the handler
+    registered under exactly `rid`, it receives exactly the bytes after the id header, and afterwards nobody
+    waits for `rid` (a second reply with the same id reaches no reply handler) -/
 theorem reply_delivered_once (s : Requester.St) (m : List Byte) (t : Nat) (p : Option (List Byte))
     (hn : (Requester.activeIds (s.arr.getD [])).Nodup)
     (h : (Requester.process s m).2 = some ⟨some t, p⟩) :
-    ∃ rid, Requester.findActive (s.arr.getD []) rid = some t ∧
+    ∃ rid u, MsgId.buf2id (Reply.unmark (m.take s.idlen)) = .ok (rid, u) ∧
+      ((m.take s.idlen).headD 0).toNat ≥ 128 ∧ p = some (m.drop s.idlen) ∧
+      Requester.findActive (s.arr.getD []) rid = some t ∧
       rid ∉ Requester.activeIds ((Requester.process s m).1.arr.getD []) := by
   unfold Requester.process at h ⊢
   simp only [] at h ⊢
@@ -230,9 +307,9 @@ theorem reply_delivered_once (s : Requester.St) (m : List Byte) (t : Nat) (p : O
           try rw [hf] at h
           try rw [hf]
           simp only [Option.some.injEq, Requester.Call.mk.injEq] at h ⊢
-          obtain ⟨ht, _⟩ := h
+          obtain ⟨ht, hp⟩ := h
           cases ht
-          refine ⟨rid, hf, ?_⟩
+          refine ⟨rid, u, rfl, trivial, hp.symm, hf, ?_⟩
           cases ha : s.arr with
           | none => simp [Requester.activeIds, Requester.active]
           | some es =>
@@ -246,5 +323,38 @@ theorem reply_delivered_once (s : Requester.St) (m : List Byte) (t : Nat) (p : O
       | fault => (try rw [hb] at h); simp at h
     · rw [if_neg h0, if_neg hm] at h
       simp at h
+example : (Requester.process ⟨2, some [⟨1, some 7⟩, ⟨2, some 8⟩], 0, []⟩ [0x80, 2, 0x41]).2 = some ⟨some 8, some [0x41]⟩ := by
+  decide
+
+/-- the hypothesis of `reply_delivered_once` holds along every requester history (await / send / peer frames
+    dispatched / peer frames taken by `sync`, including the compaction of the handler array): the ids of
+    the waiting handlers are always pairwise distinct -/
+theorem requester_ids_distinct (idlen : Nat) (ops : List Requester.ROp) :
+    (Requester.activeIds ((Requester.rrun { idlen := idlen } ops).1.arr.getD [])).Nodup :=
+  Requester.distinct_rrun { idlen := idlen } ops (by simp [Requester.Distinct, Requester.activeIds, Requester.active])
+example : (Requester.rrun { idlen := 1 } [.await 7, .send [1], .await 8, .send [2], .sync [[0x82, 5], [0x82, 6]], .await 9,
+    .answer [[0x81], [0x83]]]).2 = [⟨some 8, some [5]⟩, ⟨some 7, some []⟩, ⟨some 9, some []⟩] := by decide
+
+/-- **refinement Requester ⊑ ReplySpec.ReqSt, dispatching**: from related states (same header width, the waiting
+    handlers of the slot array = the spec's pending set, same queue) every message is delivered to the same
+    handler with the same bytes by model and spec, and the states stay related -/
+theorem requester_refines_dispatch (x : Requester.St) (sp : ReqSt) (q : List (List Byte)) (h : Requester.Rel x sp) :
+    (Requester.drain q x []).2.map Requester.callS = (deliverAll q sp []).2 ∧
+    Requester.Rel { (Requester.drain q x []).1 with inq := [] } { (deliverAll q sp []).1 with inq := [] } :=
+  Requester.rel_drain q x sp [] [] h rfl
+
+/-- **… waiting for replies**: `sync` (mpt_stream_sync: only while a handler waits, only replies, handler array
+    compacted afterwards) makes the same calls as the spec's "take replies while a request is outstanding" -/
+theorem requester_refines_sync (x : Requester.St) (sp : ReqSt) (fuel : Nat) (h : Requester.Rel x sp) (hf : x.inq.length < fuel) :
+    (Requester.sync x).2.map Requester.callS = (awaitReplies fuel sp.inq sp []).2 ∧
+    Requester.Rel (Requester.sync x).1 (awaitReplies fuel sp.inq sp []).1 :=
+  Requester.rel_sync x sp fuel h hf
+
+/-- **… new requests**: the id `await` assigns (mpt_command_reserve) is one the spec accepts as fresh (≥ 1, fits
+    the header, not in use), and the request is pending in both afterwards -/
+theorem requester_refines_await (x : Requester.St) (sp : ReqSt) (tag : Nat) (x' : Requester.St) (i : Nat)
+    (h : Requester.Rel x sp) (ha : Requester.await x tag = some (x', i)) :
+    freshId sp i = true ∧ Requester.Rel x' { sp with pending := sp.pending ++ [(i, tag)], cur := i } :=
+  Requester.rel_await x sp tag x' i h ha
 
 end Mpt.C12
